@@ -155,6 +155,49 @@ func VerifHarness_C18_hierarchy_len0() {
 	v.Assert("empty-path-returns-parent", got == pk)
 	v.Reach("end")
 }
+// compositional form for paths of length 2 (and 3): DeriveChildKeyFromHierarchy is the fold of
+// the single step DeriveChildKey (which the derive_* harnesses check against the BIP32
+// reference): same final key, and the returned offset is the SUM of the steps' offsets mod q.
+// Both sides make the same hash applications, so the solver needs no reasoning about them.
+func verifC18Fold(levels int) {
+	ec := tss.S256()
+	q := ec.Params().N
+	pk, _ := verifParent("par")
+	full := new(big.Int).Lsh(big.NewInt(1), 248)
+	v.Assume("full-length-x", pk.X.Cmp(full) >= 0)
+	v.Assume("depth-leaves-room", int(pk.Depth)+levels <= 255)
+	path := make([]uint32, levels)
+	for i := range path {
+		path[i] = v.NondetUint32(v.Name("index", i))
+	}
+	cur := pk
+	sum := new(big.Int)
+	for i := 0; i < levels; i++ {
+		il, child, err := DeriveChildKey(path[i], cur, ec)
+		if err != nil {
+			_, _, herr := DeriveChildKeyFromHierarchy(path, pk, q, ec)
+			v.Assert("refused-when-a-step-is-refused", herr != nil)
+			v.Reach("refused")
+			return
+		}
+		v.Assume("full-length-x", child.X.Cmp(full) >= 0)
+		sum.Add(sum, il)
+		cur = child
+	}
+	off, got, err := DeriveChildKeyFromHierarchy(path, pk, q, ec)
+	v.Assert("derives-when-every-step-derives", err == nil)
+	if err != nil {
+		return
+	}
+	v.Assert("offset-is-sum-of-step-offsets-mod-q", v.EqInt(off, sum.Mod(sum, q)))
+	v.Assert("final-key-is-the-last-step's-key", v.EqInt(got.X, cur.X) && v.EqInt(got.Y, cur.Y) && v.EqBytes(got.ChainCode, cur.ChainCode) &&
+		got.Depth == cur.Depth && got.ChildIndex == cur.ChildIndex && v.EqBytes(got.ParentFP, cur.ParentFP))
+	v.Reach("end")
+}
+
+func VerifHarness_C18_hierarchy_fold_len2() { verifC18Fold(2) }
+func VerifHarness_C18_hierarchy_fold_len3() { verifC18Fold(3) }
+
 func VerifHarness_C18_hierarchy_len1() { verifC18Hierarchy(1) }
 func VerifHarness_C18_hierarchy_len2() { verifC18Hierarchy(2) }
 func VerifHarness_C18_hierarchy_len3() { verifC18Hierarchy(3) }
